@@ -177,7 +177,7 @@ pub fn c17(ctx: &mut Ctx) {
     // Random histories meet such a pair with probability 2^-32; here the pairs are computed.
     if !small {
         weak_key_histories(ctx);
-        semantic_key_histories(ctx);
+        semantic_key_histories(ctx, "c17.semantic-key-history", &[]);
     }
 
     // ---- H1 + H2 + H3: randomised histories ----------------------------------------------
@@ -782,7 +782,10 @@ fn weak_key_histories(ctx: &mut Ctx) {
 /// driven through all routes back to back, in two orders, then the members alternate route by
 /// route; every call is judged against the model (an earlier call may already have left
 /// something behind, so "the first result" would not be a safe reference here).
-fn semantic_key_histories(ctx: &mut Ctx) {
+/// The checks of the value properties run the same histories and judge the calls of *their*
+/// operators (`judged_ops`; empty = all): the other routes are the history in which the judged
+/// calls happen - a property that holds "for any two values" holds whatever was evaluated before.
+pub fn semantic_key_histories(ctx: &mut Ctx, monitor: &str, judged_ops: &[&str]) {
     let s = |x: &str| Value::String(x.to_string());
     let n = |x: &str| -> Value { serde_json::from_str(x).unwrap() };
     let long_a: String = "1234567890".repeat(7);
@@ -867,10 +870,15 @@ fn semantic_key_histories(ctx: &mut Ctx) {
     let mut calls = 0u64;
     let mut run = |ctx: &mut Ctx, route: usize, v: &Value| {
         let (r, d) = routes[route](v);
+        calls += 1;
+        if !judged_ops.is_empty() && !judged_ops.contains(&crate::ctx::top_op(&r).as_str()) {
+            let _ = observe::call(&r, &d);
+            ctx.evaluations += 1;
+            return;
+        }
         let obs = ctx.observe(&r, &d);
         let (mo, tr) = refsem::model(&r, &d);
-        ctx.judge("c17.semantic-key-history", &r, &d, &obs, &mo, &tr);
-        calls += 1;
+        ctx.judge(monitor, &r, &d, &obs, &mo, &tr);
     };
     let nr = routes.len();
     for (fi, (kind, members)) in fam.iter().enumerate() {
